@@ -35,13 +35,22 @@ CHECKS = {
   "All nestings (depth 2, thorough 3) of the 8 tail contexts x 5 body features: n=0..3 with traced effects (incl. what closures of earlier iterations return) validated by TLC against ZSem, which has no tail-call optimisation; n=10..10^4 (some 10^5) with the high-water marks of the data/scope/address stacks sampled at every VM step validated against TailTrace (independent of n, run completes); the real bytecode of every shape is checked by Bytecode.tla (TailExact) under C04.",
   "space is judged in VM stack entries via the verif step hook; shapes are the enumerated ones",
   "TLA+ reference semantics (ZSem) + TailTrace; TLC trace validation of recorded executions"),
+ "C05": ("ZSem+FaultTrace", "fault_enumeration",
+  "Seeded programs with (fail) host calls in every context (top level, function, loop, let, newScope, map/apply callbacks, lazy forcing, eval); for EVERY k the k-th call fails (script error / Go panic inside the builtin), plus parse and compile errors in the text; the error, the stack depths, the effect trace and a battery of follow-up evaluations are validated by TLC against ZSem (store after failure = store at the failure point).",
+  "one injected failure per case, at most 14 failure points per program; macro-expansion-time failures not injected; ZSem's defined fragment only",
+  "TLA+ reference semantics (ZSem) + FaultTrace; fault enumeration over every host-call index; TLC trace validation"),
+ "C16": ("ZSem", "model_checking",
+  "Complete enumeration of parameter masks {lazy,strict}^{1..3} x variadic tail x 11 call routes (direct, alias, parameter, computed callee, apply on array/list, map, tail recursion, forcing after the caller returned with shadowing locals, erroring argument in a lazy/strict position) x 5 force patterns; value and effect trace (count and order of argument evaluations) validated by TLC against ZSem's thunk rules.",
+  "typed func declarations are not among the routes; ZSem's defined fragment only",
+  "TLA+ reference semantics (ZSem); TLC trace validation of recorded executions"),
 }
 
 ENGINES = [
+ {"name": "ZSem+FaultTrace", "path": "spec/ZSem.tla spec/FaultTrace.tla", "serves_properties": ["C05"], "kind_free_text": "TLA+ reference semantics with failure injection + trace specification, TLC"},
  {"name": "Session+Bytecode", "path": "spec/SessionTrace.tla spec/Bytecode.tla", "serves_properties": ["C04"], "kind_free_text": "TLA+ trace specification of the interpreter's rest state + abstract interpreter of dumped bytecode, TLC"},
  {"name": "NumTower", "path": "spec/NumTower.tla spec/MCNumTower.tla spec/NumTrace.tla", "serves_properties": ["C07"], "kind_free_text": "TLA+ functional spec on limb sequences + trace specification, TLC"},
  {"name": "ZSem+TailTrace", "path": "spec/ZSem.tla spec/SemTrace.tla spec/TailTrace.tla", "serves_properties": ["C09"], "kind_free_text": "TLA+ reference semantics + space law, TLC"},
- {"name": "ZSem", "path": "spec/ZSem.tla spec/SemTrace.tla", "serves_properties": ["C02", "C03"], "kind_free_text": "TLA+ definitional interpreter (recursive operators) + trace specification, TLC"},
+ {"name": "ZSem", "path": "spec/ZSem.tla spec/SemTrace.tla", "serves_properties": ["C02", "C03", "C16"], "kind_free_text": "TLA+ definitional interpreter (recursive operators) + trace specification, TLC"},
  {"name": "HashMap", "path": "spec/HashMap.tla spec/HashImpl.tla spec/MCHash.tla spec/HashTrace.tla", "serves_properties": ["C14"], "kind_free_text": "TLA+ state machine + refinement + trace specification, TLC"},
  {"name": "Symtab", "path": "spec/Symtab.tla spec/SymtabTrace.tla", "serves_properties": ["C19"], "kind_free_text": "TLA+ state machine + trace specification, TLC"},
 ]
